@@ -1,5 +1,5 @@
 (* C15 — sequence numbers and key rollover.  Property theorems only; proofs in SessionProofs.v. *)
-From Verif Require Import Prelude Gen Seq Session SessionProofs.
+From Verif Require Import Prelude Gen Seq Session SessionProofs Translated.
 
 (* Atomicity assumption of the model, read off the source under test by `harness gen` (go/ast):
    EncryptionSession.Out and In run entirely under the session lock, and NextOut is called from
@@ -54,3 +54,25 @@ Example C15_nonvacuous :
   let r := mkEp (mkSq 4294967294 0 0) (mkSq 5 0 0) 0 0 in
   synced s r /\ (let '(sf, rf, ok) := send_recv s r 3 in ok = true /\ e_oute sf = 1%nat /\ e_ine rf = 1%nat /\ q_out (e_regl sf) = 2 /\ q_out (e_prio sf) = 0).
 Proof. cbv zeta. split; [repeat split; reflexivity|vm_compute; repeat split]. Qed.
+
+(* ---------- the translated source (Translated.v) ----------
+   NextOut, RolloverRequired, Reset, ResetIn and ResetOut of state.SequenceHandler are translated
+   from the Go source on every run; they equal the model functions the theorems above use. *)
+Theorem C15_source_next_out_is_model : forall q, q_out q < two32 ->
+  let '(o', s, roll) := Gen.go_SequenceHandler_NextOut (q_out q) in
+  next_out q = (mkSq (q_hi q) (q_bm q) o', s, roll).
+Proof. exact go_next_out_is_model. Qed.
+Print Assumptions C15_source_next_out_is_model.
+
+Theorem C15_source_rollover_required_is_model : forall q seq,
+  let '(h', r) := Gen.go_SequenceHandler_RolloverRequired (q_hi q) seq in
+  rollover_required q seq = ((if r then mkSq h' (q_bm q) (q_out q) else q), r) /\ (r = false -> h' = q_hi q).
+Proof. exact go_rollover_required_is_model. Qed.
+Print Assumptions C15_source_rollover_required_is_model.
+
+Theorem C15_source_resets_are_model : forall q,
+  reset_out q = mkSq (q_hi q) (q_bm q) (Gen.go_SequenceHandler_ResetOut (q_out q)) /\
+  reset_in q = mkSq (Gen.go_SequenceHandler_ResetIn (q_hi q)) (q_bm q) (q_out q) /\
+  reset_both q = (let '(h, o) := Gen.go_SequenceHandler_Reset (q_hi q) (q_out q) in mkSq h (q_bm q) o).
+Proof. exact go_resets_are_model. Qed.
+Print Assumptions C15_source_resets_are_model.
